@@ -46,8 +46,10 @@ def result_of(op, fa, fb, a, b):
     return fz, r
 
 
-def judge(acc, fa, fb, xs, ys, op, shape_mode, part):
-    case = {'part': part, 'fx': list(fa), 'fy': list(fb), 'xs': list(xs), 'ys': list(ys), 'op': op, 'shape': shape_mode}
+def judge(acc, fa, fb, xs, ys, op, shape_mode, part, hist=False):
+    """shape_mode 'self': the same object on both sides.  hist (with 'vec'): the operands first hold other codes and are operated on,
+    then every element is written in place (the buffer object stays), then the judged operation runs"""
+    case = {'part': part, 'fx': list(fa), 'fy': list(fb), 'xs': list(xs), 'ys': list(ys), 'op': op, 'shape': shape_mode, 'hist': hist}
     if shape_mode == 'outer':
         pairs = [(a, b) for a in xs for b in ys]
         sx, sy = (-1, 1), (1, -1)
@@ -55,6 +57,9 @@ def judge(acc, fa, fb, xs, ys, op, shape_mode, part):
         m = min(len(xs), len(ys))
         xs, ys = xs[:m], ys[:m]
         pairs = list(zip(xs, ys))
+        sx = sy = (-1,)
+    elif shape_mode == 'self':
+        pairs = [(a, a) for a in xs]
         sx = sy = (-1,)
     else:
         pairs = [(xs[0], ys[0])]
@@ -74,7 +79,22 @@ def judge(acc, fa, fb, xs, ys, op, shape_mode, part):
     acc.dim('regime', 'result>=64' if fz.n_word >= 64 else ('result>=54' if fz.n_word >= 54 else 'result<54'), len(pairs))
     acc.nontrivial += sum(1 for r in exps if abs(r).bit_length() >= 54)
     try:
-        x, y = mk(fa, xs, sx), mk(fb, ys, sy)
+        if hist:
+            x = mk(fa, [fa.hi if c != fa.hi else fa.lo for c in xs], sx)
+            y = mk(fb, [fb.hi if c != fb.hi else fb.lo for c in ys], sy)
+            for op0 in OPS:
+                apply(op0, 'operator', x, y)
+                acc.transitions += 1
+            for i, c in enumerate(xs):
+                x.set_val(c, raw=True, index=i)
+            for i, c in enumerate(ys):
+                y.set_val(c, raw=True, index=i)
+            acc.dim('history', 'operate-write-operate', len(pairs))
+        elif shape_mode == 'self':
+            x = y = mk(fa, xs, sx)
+            acc.dim('history', 'same object on both sides', len(pairs))
+        else:
+            x, y = mk(fa, xs, sx), mk(fb, ys, sy)
         z = apply(op, 'operator', x, y)
         got = codes(z)
         gf = fmt_of(z)
@@ -192,6 +212,9 @@ def run_shard(sh):
                                 judge(acc, fa, fb, [fa.hi], [fb.lo if sb else fb.hi], op, 'scalar', 'A')
                                 if nfa == 0 and nfb in (0, wb):
                                     judge(acc, fa, fb, xs, ys, op, 'vec', 'A')
+                                    judge(acc, fa, fb, xs, ys, op, 'vec', 'A', True)
+                                if fa == fb:
+                                    judge(acc, fa, fa, xs, xs, op, 'self', 'A')
                                 # second level: (x op y) op2 w, staying below 256 bits
                                 if res is not None and nfa == 0 and nfb == 0 and wa in (31, 32, 53, 63, 64, 70) and wb in (32, 33, 62, 64):
                                     z, fz, exps = res
@@ -251,7 +274,7 @@ def replay(case):
             except Exception as e:
                 acc.violation('exception', case, repr(e), {'part': 'A2', 'op': op2, 'exc': type(e).__name__})
     else:
-        judge(acc, Fmt(*case['fx']), Fmt(*case['fy']), case['xs'], case['ys'], case['op'], case['shape'], case['part'])
+        judge(acc, Fmt(*case['fx']), Fmt(*case['fy']), case['xs'], case['ys'], case['op'], case['shape'], case['part'], case.get('hist', False))
     return acc.violations
 
 
